@@ -184,7 +184,7 @@ theorem hfb_rel {H : List Op} {op : Op} (hsub : Sub (H ++ [op]) G) {t : Tracker}
   have slot1 : ∀ s, t.first ≤ s → SlotOK (H ++ [op]) s (setSt t.status blk.1 (.finalized blk.2) s) := by
     intro s hsw
     by_cases hx : s = blk.1
-    · subst hx; rw [hs1b]; exact hblkF
+    · subst hx; rw [hs1b]; exact hdir
     · rw [hs1o s hx]
       refine slotOK_snoc_other (r.slot s hsw) ?_
       rw [hop]; intro e; cases e; exact hx rfl
@@ -311,7 +311,7 @@ theorem markFastFinalized_rel {H : List Op} {blk : Nat × Nat} (hsub : Sub (H ++
   have hkeep : ∀ h, finalHash (t.status blk.1) = some h →
       Rel (H ++ [.fastFinal blk]) { t with status := setSt t.status blk.1 (.finalized blk.2) } := by
     intro h e
-    refine rel_set r hop ?_ ?_ hblkF
+    refine rel_set r hop ?_ ?_ hdir
     · rw [e, hfin h e]; rfl
     · constructor
       · intro e'; cases e'
@@ -327,7 +327,7 @@ theorem markFastFinalized_rel {H : List Op} {blk : Nat × Nat} (hsub : Sub (H ++
     exact ⟨_, _, hr.symm, hkeep h e, evSound_empty _⟩
   · rename_i h hst
     rw [hst] at ok
-    have := sf.notar_final (blk.1, h) blk (ok.1.mono (hs.trans hsub)) (hblkF.mono hsub) rfl
+    have := sf.notar_direct (blk.1, h) blk (ok.1.mono (hs.trans hsub)) (hdir.mono hsub) rfl
     have hh : h = blk.2 := by rw [← this]
     rw [if_pos hh] at hr
     obtain ⟨t', ev, h1, h2⟩ := hfb_rel sf hsub r hop hw (by rw [hst]; simp [dec_some, Status.decided]) hdir
@@ -374,9 +374,9 @@ theorem markNotarized_rel {H : List Op} {blk : Nat × Nat} (hsub : Sub (H ++ [.n
     intro d
     refine rel_snoc_dec r hnp ?_
     intro s _ e; cases e; exact d
-  have hfinal : ∀ h, finalHash (t.status blk.1) = some h → h = blk.2 := by
+  have hfinal : ∀ h, t.status blk.1 = some (.finalized h) → h = blk.2 := by
     intro h e
-    have := sf.notar_final blk (blk.1, h) (hN.mono hsub) ((slotOK_final ok e).mono (hs.trans hsub)) rfl
+    have := sf.notar_direct blk (blk.1, h) (hN.mono hsub) ((slotOK_direct ok e).mono (hs.trans hsub)) rfl
     rw [this]
   split at hr
   · rename_i hst
@@ -395,10 +395,9 @@ theorem markNotarized_rel {H : List Op} {blk : Nat × Nat} (hsub : Sub (H ++ [.n
     · intro e; cases e
     · intro e; rw [hst] at e; cases e
   · rename_i h hst
-    rw [if_pos (hfinal h (by rw [hst]; rfl))] at hr
+    rw [if_pos (hfinal h hst)] at hr
     exact ⟨_, _, hr.symm, hdecided (by rw [hst]; exact dec_some.mpr rfl), evSound_empty _⟩
   · rename_i h hst
-    rw [if_pos (hfinal h (by rw [hst]; rfl))] at hr
     exact ⟨_, _, hr.symm, hdecided (by rw [hst]; exact dec_some.mpr rfl), evSound_empty _⟩
   · rename_i hst
     exact ⟨_, _, hr.symm, hdecided (by rw [hst]; exact dec_skipped), evSound_empty _⟩
